@@ -70,6 +70,13 @@ add("C28", "genrun", "generated worlds with structurally equal / near-equal type
     "10k generated worlds per quick run in near-equal mode (exact copies, renamed/swapped/retyped fields and cases, aliases, use-imports with renames, resources, handles, futures/streams) plus the corpus: for every pair of live types get_representative_type agrees with an independent structural equality; content facts equal an independent walk; borrowed/owned/error facts equal reachability from import params / export params and results / error types; after collect_equal_types every class member carries the union.",
     "may_alias_another_type = always true (the Rust backend's narrower predicate is not modelled); borrowed/owned are judged for named types only, as the analysis records them; wit-parser's LiveTypes supplies the set of live types.")
 
+add("C31", "genrun", "generated worlds + corpus -> C++ generator -> g++ -std=c++20 -fsyntax-only with the repository's helper headers; oracle: no error diagnostics",
+    "Every generated .cpp of 64 generated worlds per quick run (restricted to the C++ backend's declared feature set, adversarial names) and of the whole corpus is type-checked with g++ 12 as C++20 against crates/cpp/helper-types and test_headers. The corpus is clean; random worlds expose eleven classes of type errors in the (experimental) C++ backend, listed as known findings by normalised diagnostic.",
+    "g++/libstdc++ on x86_64 stands in for wasi-sdk clang++/libc++ (one host-width-only error class is filtered); known findings are keyed by the normalised first diagnostic, so a new defect that produces an already-listed diagnostic class on a random world would be masked (the corpus tier has no tolerated class).")
+add("C32", "genrun", "random on-disk package layouts x macro invocation forms; real macro expansion via cargo check; oracle: rustc dep-info lists every file wit-parser reads",
+    "40 random layouts per quick run (single file, directory, deps/ folders with directory and single-file dependencies used or unused, several ordered paths, inline, inline+path(s)) are compiled as modules of one crate, plus three crates for the default `wit/` directory forms; rustc's dep-info must list every WIT file that wit_parser::Resolve::push_path reads for the layout.",
+    "Dependency tracking is observed through rustc's .d file; the set of files read comes from wit-parser's PackageSourceMap; only importing worlds are used (the property is about file tracking, not codegen).")
+
 PENDING_REASON = "check not built yet in this session (planned in DESIGN.md §4); not claimed until it exists and passes its sensitivity runs"
 
 def main():
@@ -121,7 +128,7 @@ def main():
 NA = {}
 HOOK_COMMITS = ["b827c12", "a6f2383"]
 ENGINES = [
-    {"name": "genrun", "path": "harness/genrun", "serves_properties": ["C13", "C15", "C16", "C17", "C28", "C29", "C30", "C33"], "kind_free_text": "tape-driven constructive WIT world generator (harness/witgen) + in-process drivers for all eight generators with panic capture and output collection"},
+    {"name": "genrun", "path": "harness/genrun", "serves_properties": ["C13", "C15", "C16", "C17", "C28", "C29", "C30", "C31", "C32", "C33"], "kind_free_text": "tape-driven constructive WIT world generator (harness/witgen) + in-process drivers for all eight generators with panic capture and output collection"},
     {"name": "abisim", "path": "harness/abisim", "serves_properties": ["C01", "C02", "C03", "C04"], "kind_free_text": "recording wit_bindgen_core::abi::Bindgen + instruction interpreter + independent reference canonical ABI (harness/refabi), driven by proptest"},
     {"name": "rtpbt", "path": "harness/rtpbt", "serves_properties": ["C24"], "kind_free_text": "proptest histories against wit_bindgen::rt allocation entry points with a tracking global allocator"},
     {"name": "corepbt", "path": "harness/corepbt", "serves_properties": ["C17", "C25", "C26", "C27", "C28", "C34"], "kind_free_text": "proptest harnesses over public items of wit-bindgen-core / wit-bindgen rt / wit-bindgen-test"},
